@@ -2,7 +2,10 @@
 // and never accepts malformed headers) with three generated checks and two
 // native fuzz targets:
 //
-//	roundtrip   generated valid span contexts -> Inject -> Extract
+//	roundtrip   generated valid span contexts -> Inject -> Extract, over the
+//	            carrier's pre-state (carrier_test.go), the form of the
+//	            propagator, the way the span context is built and further
+//	            hops that edit the tracestate (forms_test.go)
 //	headers     arbitrary / mutated traceparent + tracestate header bytes
 //	tracestate  rapid state machine over trace.TraceState edits against a
 //	            reference model (slice, move-to-front, right-most eviction)
@@ -46,6 +49,19 @@
 //   - Only the sampled bit of the flags is compared between the injected and
 //     the extracted context; the re-injected flags field must be "00" or "01"
 //     (level 1: undefined flag bits MUST be sent as zero; Inject masks them).
+//   - "a carrier" is any http.Header / map, new or already holding entries.
+//     Which entry is "the traceparent / tracestate header" of a carrier follows
+//     the documented addressing of the storage type (http.Header: the entry
+//     under the canonical MIME key, first field line; map: the exact key);
+//     entries stored verbatim under other spellings are not the header and must
+//     neither be extracted nor shadow what Inject wrote.
+//   - TextMapCarrier has no delete and Inject writes no tracestate header for a
+//     span context without tracestate, so a stale tracestate the addressing
+//     reaches survives Inject when nothing replaces it: the tracestate clause
+//     is not judged for (empty tracestate injected, reachable stale tracestate
+//     present); ids and sampled flag still are. Counted as a class.
+//   - A Baggage neighbour in a composite propagator and a baggage in the
+//     context are only there to be ignored; nothing about baggage is asserted.
 //   - "context untouched" is read as: the span context (and an unrelated
 //     value) found in the returned context equal the ones in the context
 //     passed in; pointer identity of the context is not demanded.
